@@ -35,7 +35,7 @@ REACH = [("yamlpath/merger/merger.py", "_merge_dicts,_merge_lists,_merge_simple_
          ("yamlpath/merger/merger.py", "_insert_dict,_insert_list,_insert_set,_insert_scalar,merge_with", "Merger._insert_* / merge_with"),
          ("yamlpath/merger/mergerconfig.py", "hash_merge_mode,array_merge_mode,aoh_merge_mode,set_merge_mode,aoh_merge_key,_prepare_user_rules", "MergerConfig modes")]
 SIZES = {"quick": 200000, "thorough": 4000000}
-REQUIRED_COUNTERS = ["model_decided", "documented_error_cases", "rules_cases", "ini_cases", "twin_rule_cases", "nested_rule_cases", "sequence_cases"]
+REQUIRED_COUNTERS = ["model_decided", "documented_error_cases", "rules_cases", "ini_cases", "twin_rule_cases", "nested_rule_cases", "sequence_cases", "anchored_rule_cases"]
 HASHES, ARRAYS, AOH, SETS = ["deep", "left", "right"], ["all", "left", "right", "unique"], \
     ["all", "deep", "left", "right", "unique"], ["left", "right", "unique"]
 ALL_COMBOS = list(itertools.product(HASHES, ARRAYS, AOH, SETS))
@@ -280,6 +280,64 @@ SEEDS = [("{a: 1, b: [1, 2]}", "{a: 2, b: [2, 3]}", ("deep", "all", "left", "uni
          ("{l: [{id: 1, v: 1}, {id: 2, v: 2}]}", "{l: [{id: 2, v: 9}, {id: 3, v: 3}]}", ("deep", "all", "deep", "unique"))]
 
 
+def anchored_rule_case(ctx, rng):
+    """A per-path rule must govern the node at its path however anchor conflicts between the two documents are resolved.
+    Metamorphic: when the ruled path holds the only node of its kind that meets a counterpart, the run with the rule
+    must equal the run with that policy as the default (no reference merge needed; anchored *containers* on both sides)."""
+    kind = rng.choice(["seq", "map"])
+    def cont(tag):
+        if kind == "seq":
+            return "[%s]" % ", ".join(rng.sample(["1", "2", "3", "80", "8080", "x"], rng.randrange(1, 4)))
+        return "{%s}" % ", ".join("%s: %s" % (k, rng.choice(["1", "2", "x"])) for k in rng.sample(["a", "b", "c"], rng.randrange(1, 3)))
+    xl, xr, w = cont("l"), cont("r"), cont("w")
+    if xl == xr:
+        return
+    ltext = "{defaults: &P %s, svc: {name: api, p: %s}, other: 1}" % (xl, w)
+    rtext = "{base: &P %s, svc: {p: *P}, other: 2}" % xr
+    which, modes = ("arrays", ARRAYS) if kind == "seq" else ("hashes", HASHES)
+    anchors = rng.choice(["left", "left", "right", "rename"])
+    base_combo = list(rng.choice(ALL_COMBOS))
+    mode = rng.choice(modes)
+    idx = 1 if kind == "seq" else 0
+    if kind == "map":
+        return_default = None
+    outs = []
+    for use_rule in (True, False):
+        combo = list(base_combo)
+        kw = {}
+        if use_rule:
+            kw["rules"] = {"/svc/p": mode}
+            if kind == "map":
+                combo[0] = "deep"            # the root and /svc must merge deeply for the rule's node to be reached at all
+        else:
+            combo[idx] = mode
+            if kind == "map":
+                # hashes=<mode> as a default would also govern the root and /svc: only comparable when it is deep
+                if mode != "deep":
+                    return
+        try:
+            L, R = yp.load(ltext), yp.load(rtext)
+            m = Merger(LOG, L, MergerConfig(LOG, SimpleNamespace(hashes=combo[0], arrays=combo[1], aoh=combo[2], sets=combo[3],
+                                                                 anchors=anchors), **kw))
+            m.merge_with(R)
+            outs.append(("OK", MM.norm(MM.plain(m.data))))
+        except (MergeException, YAMLPathException) as e:
+            outs.append(("ERR", type(e).__name__))
+        except yp.LoadError:
+            return
+        except Exception as e:
+            ctx.violation("anchored-rule/crash/%s@%s" % (type(e).__name__, where(e)), {
+                "case": {"lhs": ltext, "rhs": rtext, "anchors": anchors, "rule": {"/svc/p": mode}}, "summary": repr(e)[:150]})
+            return
+    ctx.evaluations += 1
+    ctx.counters["anchored_rule_cases"] = ctx.counters.get("anchored_rule_cases", 0) + 1
+    ctx.mark_nontrivial([ltext, rtext, anchors, mode, base_combo])
+    if outs[0] != outs[1]:
+        ctx.violation("anchored-rule/rule-differs-from-same-policy-as-default/%s/%s" % (which, anchors), {
+            "case": {"lhs": ltext, "rhs": rtext, "anchors": anchors, "rule": {"/svc/p": mode}, "policies": base_combo},
+            "summary": "with the rule: %r ; with %s=%s as the default: %r" % (outs[0], which, mode, outs[1])})
+
+
 def nested_paths(t, path=""):
     out = []
     if t[0] == "map":
@@ -313,6 +371,10 @@ def run_shard(ctx):
     want = SIZES[ctx.tier] // ctx.nshards
     n = 0
     while ctx.evaluations < want:
+        if rng.random() < 0.04:
+            for _ in range(6):
+                anchored_rule_case(ctx, rng)
+            continue
         if rng.random() < 0.08:
             lt, rt, tpath = twin_pair(rng)
             ltext, rtext = gd.render(lt), gd.render(rt)
